@@ -32,9 +32,10 @@ def _replay_filter(ctx):
 
 def _run_c21(ctx):
     t = ctx.thorough
-    mc = lib.tlc(ctx, "mc", "MC_Output.tla", "MC_Output_thorough.cfg" if t else "MC_Output.cfg",
-                 workers=4, timeout=2400, coverage=True)
-    dead = lib.coverage_zero_actions(mc, _ACTIONS)
+    lib.tlc(ctx, "mc", "MC_Output.tla", "MC_Output_thorough.cfg" if t else "MC_Output.cfg", workers=4, timeout=2400)
+    # vacuity: a small instance with -coverage 1 (periodic coverage dumps of a long run would bury TLC's verdict)
+    cov = lib.tlc(ctx, "mc_cov", "MC_Output.tla", "MC_Output_cov.cfg", workers=2, timeout=600, coverage=True, count=False)
+    dead = lib.coverage_zero_actions(cov, _ACTIONS)
     if dead:
         raise lib.ToolError("vacuous model: actions never taken in MC_Output: %s" % ", ".join(dead))
     _as_shipped_rejected(ctx, "MC_Output_as_shipped_C21.cfg", "C21_")
@@ -128,7 +129,7 @@ CHECKS = {
         "run": _run_c22, "engine": "Output",
         "technique": "TLA+ escaping model (Output.tla, part b) checked by TLC; exported strings placed into real Metrics and "
                      "read through the real HTTP server's /api/v1/status and /metrics",
-        "level_text": "All strings of <= 3 (thorough 4; TLC 4 resp. 6) characters over {plain, quote, backslash, newline, "
+        "level_text": "All strings of <= 3 (thorough 5; TLC 4 resp. 6) characters over {plain, quote, backslash, newline, "
                       "tab, other control, non-ASCII} in every externally controlled string field of the metrics that can "
                       "hold them (TAL name, rsync / RRDP / publication point log messages).",
         "level_note": _NOTE22, "design_ref": "4/C22",
